@@ -120,12 +120,23 @@ def facts_get_model_from_str(tree):
     hb = [_u(s) for s in t.handlers[0].body]
     except_restores = "self._restore_user_attr_methods()" in hb
     need(except_restores or not any("_restore_user_attr_methods" in x for x in hb), "get_model_from_str: unrecognised restore in except")
-    prim = False
+    prim = imm = False
     for s in flat[idx["build"] + 1:]:
-        if isinstance(s, ast.If) and _u(s.test) == "not hasattr(model, '_tx_parser')" and _has_stmt(s.body, "self._restore_user_attr_methods()"):
-            prim = True
+        if isinstance(s, ast.If) and _has_stmt(s.body, "self._restore_user_attr_methods()") and len(s.body) == 1 and not s.orelse:
+            test = _u(s.test)
+            if test == "not hasattr(model, '_tx_parser')":          # every value _end_model_construction cannot reach
+                prim = imm = True
+            elif test == "type(model) in PRIMITIVE_PYTHON_TYPES":    # int / float / str / bool only
+                prim = True
+            else:
+                raise TranslateError("get_model_from_str: unrecognised condition of the restore after model construction: " + test)
         else:
             need("_restore_user_attr_methods" not in _u(s), "get_model_from_str: unrecognised restore after model construction: " + _u(s)[:80])
+    if prim and not imm:
+        pt = [n for n in ast.walk(tree) if isinstance(n, ast.ImportFrom) and any(a.name == "PRIMITIVE_PYTHON_TYPES" for a in n.names)]
+        ltree, _ = parse_file("textx/lang.py")
+        defs = [_u(n.value) for n in ast.walk(ltree) if isinstance(n, ast.Assign) and _u(n.targets[0]) == "PRIMITIVE_PYTHON_TYPES"]
+        need(pt and defs == ["[int, float, str, bool]"], "PRIMITIVE_PYTHON_TYPES is not [int, float, str, bool]: %r" % defs)
     need(_u(f.body[-1]) == "return model", "get_model_from_str: return changed")
     rep = _u(find_func(tree, "_replace_user_attr_methods"))
     need("if '_tx_instrumented' not in user_class.__dict__:" in rep and "user_class._tx_instrumented += 1" in rep,
@@ -155,7 +166,7 @@ def facts_get_model_from_str(tree):
         pre = [_u(x) for x in f.body[:f.body.index(t)]]
         need("self._user_classes_replaced = []" in pre, "get_model_from_str does not start with an empty per-parser record")
         guard = True
-    return except_restores, prim, guard
+    return except_restores, prim, imm, guard
 
 
 def fact_end_restores(tree):
@@ -174,7 +185,7 @@ def extract():
     ltree, _ = parse_file("textx/lang.py")
     mtree, _ = parse_file("textx/model.py")
     mmtree, _ = parse_file("textx/metamodel.py")
-    ex, prim, guard = facts_get_model_from_str(mtree)
+    ex, prim, imm, guard = facts_get_model_from_str(mtree)
     # the call that ends construction for every included model of a main load
     p2o = find_func(mtree, "parse_tree_to_objgraph")
     need("for m in models:\n    _end_model_construction(m)" in _u(p2o).replace("        ", "").replace("    _end", "    _end")
@@ -187,6 +198,7 @@ def extract():
         "f_except_restores": ex,
         "f_end_restores": fact_end_restores(mtree),
         "f_restore_on_primitive": prim,
+        "f_restore_on_immutable": imm,
         "f_restore_guarded": guard,
     }
 
